@@ -48,6 +48,10 @@ pub struct C02 {
     reader: Option<SlidingWindowMetric>,
     node: Option<ResourceNode>,
     node_reader: Option<Arc<dyn ReadStat>>,
+    /// a second node whose DEFAULT metric has the same interval but another valid sample count, and
+    /// the read stat generated from it for the geometry under test
+    node2: Option<ResourceNode>,
+    node2_reader: Option<Arc<dyn ReadStat>>,
     ctor_err: Option<String>,
     log: EventLog,
     dts: Vec<u64>,
@@ -74,6 +78,8 @@ impl C02 {
             reader: None,
             node: None,
             node_reader: None,
+            node2: None,
+            node2_reader: None,
             ctor_err: None,
             log: EventLog::default(),
             dts,
@@ -157,6 +163,19 @@ impl C02 {
                         return Err(format!("qps_previous via {}: {:?} at t=+{}: got {} want {}", name, k, t - T0_MS, g, wantp as f64 / secs));
                     }
                 }
+                if let Some(g2) = &self.node2_reader {
+                    let name = "the read stat generated on a node with another default sample count";
+                    if g2.sum(ev(k)) != want {
+                        return Err(format!("ReadStat::sum via {}: {:?} at t=+{}: got {} want {}", name, k, t - T0_MS, g2.sum(ev(k)), want));
+                    }
+                    if g2.qps(ev(k)) != want as f64 / secs {
+                        return Err(format!("ReadStat::qps via {}: {:?} at t=+{}: got {} want {}", name, k, t - T0_MS, g2.qps(ev(k)), want as f64 / secs));
+                    }
+                    let g = g2.qps_previous(ev(k));
+                    if g != wantp as f64 / secs {
+                        return Err(format!("qps_previous via {}: {:?} at t=+{}: got {} want {}", name, k, t - T0_MS, g, wantp as f64 / secs));
+                    }
+                }
             }
         }
         if via_clock {
@@ -205,6 +224,8 @@ impl Subject for C02 {
         self.reader = None;
         self.node = None;
         self.node_reader = None;
+        self.node2 = None;
+        self.node2_reader = None;
         let arr = match BucketLeapArray::new(self.cfg.n, self.cfg.n * self.cfg.len) {
             Ok(a) => Arc::new(a),
             Err(e) => {
@@ -220,21 +241,41 @@ impl Subject for C02 {
             (Err(e), true) => self.ctor_err = Some(format!("reader-refused: servable read window ({}, {} ms) over ring {}x{} ms refused: {}", self.cfg.sc, self.cfg.iv, self.cfg.n, self.cfg.len, e)),
         }
         self.arr = Some(arr);
-        if self.valid && self.ctor_err.is_none() {
-            // a real ResourceNode of the same geometry (config is per thread; restored right after)
+        let mk_node = |sc: u32, this: &Self| -> ResourceNode {
             let mut e = ConfigEntity::new();
-            e.config.stat.sample_count_total = self.cfg.n;
-            e.config.stat.interval_ms_total = self.cfg.n * self.cfg.len;
-            e.config.stat.sample_count = self.cfg.sc;
-            e.config.stat.interval_ms = self.cfg.iv;
+            e.config.stat.sample_count_total = this.cfg.n;
+            e.config.stat.interval_ms_total = this.cfg.n * this.cfg.len;
+            e.config.stat.sample_count = sc;
+            e.config.stat.interval_ms = this.cfg.iv;
             config::reset_global_config(e);
             let node = ResourceNode::new("c02-node".into(), ResourceType::Common);
             config::reset_global_config(ConfigEntity::new());
+            node
+        };
+        if self.valid && self.ctor_err.is_none() {
+            // a real ResourceNode of the same geometry
+            let node = mk_node(self.cfg.sc, self);
             match node.generate_read_stat(self.cfg.sc, self.cfg.iv) {
                 Ok(g) => self.node_reader = Some(g),
                 Err(e) => self.ctor_err = Some(format!("reader-refused: generate_read_stat({}, {}) refused: {}", self.cfg.sc, self.cfg.iv, e)),
             }
             self.node = Some(node);
+        }
+        // a second node whose DEFAULT metric has the same interval but another valid sample count:
+        // the read stat asked for must be built (or refused) for the geometry asked for, not
+        // answered with the node's default metric
+        let alt_sc = [1u32, 2, 3, 4, 5, 6, 10, 20].into_iter().find(|s| *s != self.cfg.sc && reader_valid(self.cfg.n, self.cfg.len, *s, self.cfg.iv));
+        if let (Some(alt), None) = (alt_sc, &self.ctor_err) {
+            let node2 = mk_node(alt, self);
+            match (node2.generate_read_stat(self.cfg.sc, self.cfg.iv), self.valid) {
+                (Ok(g), true) => self.node2_reader = Some(g),
+                (Err(e), true) => self.ctor_err = Some(format!("reader-refused: generate_read_stat({}, {}) on a node whose default metric is ({}, {}) refused: {}", self.cfg.sc, self.cfg.iv, alt, self.cfg.iv, e)),
+                (Ok(_), false) => self.ctor_err = Some(format!("reader-accepted: generate_read_stat({}, {} ms) on a node over ring {}x{} ms (default metric ({}, {} ms)) cannot be served but was accepted", self.cfg.sc, self.cfg.iv, self.cfg.n, self.cfg.len, alt, self.cfg.iv)),
+                (Err(_), false) => {}
+            }
+            if self.valid {
+                self.node2 = Some(node2);
+            }
         }
     }
     fn enabled(&self) -> Vec<Op> {
@@ -267,6 +308,9 @@ impl Subject for C02 {
         // raw array with explicit time, node through the clock
         self.arr.as_ref().unwrap().add_count_with_time(t, ev(*kind), *count).map_err(|e| format!("write-refused: non-decreasing write at t=+{} refused: {}", t - T0_MS, e))?;
         self.node.as_ref().unwrap().add_count(ev(*kind), *count);
+        if let Some(n2) = &self.node2 {
+            n2.add_count(ev(*kind), *count);
+        }
         self.log.record(t, *kind, *count);
         self.kinds_seen |= 1 << (*kind as u8);
         // node and raw array must agree, so the reader over the raw array is checked with explicit
